@@ -2,10 +2,11 @@
     Model: Num/Results.v (Sample / BolfiSample containers, weighted_sample_quantile,
     gelman_rubin_statistic, eff_sample_size over canonical rationals [Qc]).
     This file only states the property theorems; proofs are in Proofs/C16_Results.v.
-    File round trips (pickle / JSON / CSV) have no theorem: differential test in harness/c16.py. *)
+    File round trips: the CSV table layout (zip_longest rows / column read-back) has theorems
+    (Proofs/C16_Csv.v); the text form of a cell, JSON and pickle are differential tests in harness/c16.py. *)
 From Coq Require Import String.
 From Coq Require Import ZArith QArith Qcanon Bool Arith List Permutation.
-From Elfi Require Import Num.Results Proofs.C16_Results.
+From Elfi Require Import Num.Results Proofs.C16_Results Proofs.C16_Csv.
 Import ListNotations.
 Local Open Scope Qc_scope.
 
@@ -519,6 +520,36 @@ Theorem C16_mean_is_C13_mean :
     /\ (this m == Quantile.qsum (map (fun p => fst p * snd p) xw) / Quantile.wtot xw)%Q.
 Proof. exact C16_C13_Link.average_is_wvar_xbar. Qed.
 Print Assumptions C16_mean_is_C13_mean.
+
+(** ---- Sample.save('x.csv'): the table layout round-trips ----
+    header = samples.keys(), data rows = itertools.zip_longest of the columns (fill value '' = [None]);
+    reading column j back as the non-fill cells at position j returns exactly the stored column, for every
+    number of parameters and samples (ragged columns included); the file has max-length data rows, each as
+    wide as the header; a rectangular sample (the Sample invariant) writes no fill cell. *)
+Theorem C16_csv_roundtrip :
+  forall (A : Type) (cols : list (list A)),
+    C16_Csv.read_columns (length cols) (C16_Csv.zip_longest cols) = cols.
+Proof. exact (@C16_Csv.csv_roundtrip). Qed.
+Print Assumptions C16_csv_roundtrip.
+
+Theorem C16_csv_shape :
+  forall (A : Type) (cols : list (list A)),
+    length (C16_Csv.zip_longest cols) = list_max (map (@length A) cols)
+    /\ forall row, In row (C16_Csv.zip_longest cols) -> length row = length cols.
+Proof. exact (@C16_Csv.csv_shape). Qed.
+Print Assumptions C16_csv_shape.
+
+Theorem C16_csv_rectangular_no_fill :
+  forall (A : Type) (cols : list (list A)) (n : nat),
+    Forall (fun c => length c = n) cols ->
+    forall row, In row (C16_Csv.zip_longest cols) -> ~ In None row.
+Proof. exact (@C16_Csv.csv_rectangular_no_fill). Qed.
+Print Assumptions C16_csv_rectangular_no_fill.
+
+Example C16_csv_rectangular_no_fill_nonvacuous :
+  Forall (fun c => length c = 2%nat) [[1; 2]; [3; 4]; [5; 6]]%nat
+  /\ C16_Csv.zip_longest [[1; 2]; [3; 4]; [5; 6]]%nat = [[Some 1; Some 3; Some 5]; [Some 2; Some 4; Some 6]]%nat.
+Proof. split; [repeat constructor | reflexivity]. Qed.
 
 (** ---- non-vacuity of the hypotheses (audit) ---- *)
 From Coq Require Import Sorted.
